@@ -1,6 +1,7 @@
 package radixdb
 
 import (
+	"bytes"
 	"errors"
 	"fmt"
 	"sync/atomic"
@@ -41,19 +42,44 @@ func FromObject(obj interface{}) ([]byte, error) {
 	return item.Key, nil
 }
 
+// toIndexKey maps a key to the key used in the radix index.
+// The iterators of the radix tree (SeekLowerBound, SeekReverseLowerBound, ReverseIterator)
+// are only correct if no index key is a prefix of another one. Appending a single 0x00, as
+// go-memdb does for strings, does not guarantee that for binary keys: "abc"+0x00 is a prefix
+// of "abc\x00"+0x00. So every 0x00 of the key is escaped as 0x00 0xFF and the key is
+// terminated by 0x00 0x00. This keeps the byte order of the keys and makes the index keys
+// prefix free. It also no longer appends to the caller's slice.
 func toIndexKey(key []byte) []byte {
 	if key == nil {
 		return nil
 	}
-	key = append(key, '\x00')
-	return key
+	out := make([]byte, 0, len(key)+bytes.Count(key, []byte{0})+2)
+	for _, b := range key {
+		out = append(out, b)
+		if b == 0 {
+			out = append(out, 0xFF)
+		}
+	}
+	return append(out, 0, 0)
 }
 
 func extractFromIndexKey(key []byte) []byte {
-	if len(key) == 0 {
+	if len(key) < 2 {
 		return key
 	}
-	return key[:len(key)-1]
+	key = key[:len(key)-2]
+	if bytes.IndexByte(key, 0) < 0 {
+		return key
+	}
+	out := make([]byte, 0, len(key))
+	for i := 0; i < len(key); i++ {
+		out = append(out, key[i])
+		if key[i] == 0 {
+			// skip the escape byte
+			i++
+		}
+	}
+	return out
 }
 
 // Txn is a transaction against a MemDB.
